@@ -469,10 +469,37 @@ def mutators(val, val2):
         "update_md": lambda h: h.update(MultiDict([("Y", val2), ("X", val)])),
         "remove": lambda h: h.remove("X"),
         "pop": lambda h: h.pop("X", None),
+        # the same through the remaining documented argument shapes: an iterable of pairs, list-valued keyword
+        # arguments, set / tuple values, and values that are not text until str() is applied to them
+        "update_pairs": lambda h: h.update([("Y", val2), ("X", val)]),
+        "update_pairs_iter": lambda h: h.update(iter([("Y", val2), ("X", val)])),
+        "ior_pairs": lambda h: h.__ior__([("Y", val2), ("X", val)]),
+        "update_kw_list": lambda h: h.update(x=[val2, val]),
+        "update_tuple": lambda h: h.update({"X": (val2, val)}),
+        "update_set": lambda h: h.update({"X": {val}}),
+        "extend_kw_list": lambda h: h.extend(x=[val2, val]),
+        "setlist_tuple": lambda h: h.setlist("X", (val2, val)),
+        "add_nonstr": lambda h: h.add("X", Texty(val)),
+        "set_nonstr": lambda h: h.set("X", Texty(val)),
+        "setitem_nonstr": lambda h: h.__setitem__("X", Texty(val)),
+        "setlist_nonstr": lambda h: h.setlist("X", [1, Texty(val)]),
+        "update_nonstr": lambda h: h.update({"X": Texty(val)}),
+        "extend_nonstr": lambda h: h.extend([("X", Texty(val))]),
+        "add_kw_nonstr": lambda h: h.add("X", "v", p=Texty(val)),
     }
 
 
-SINGLE_VALUE_MUTATORS = {"add", "add_kw", "add_header", "set", "set_kw", "setitem", "setitem_idx", "setdefault"}
+class Texty:
+    """A header value that is not a str (a number, a path, a lazy translation string): Headers applies str() to it."""
+
+    def __init__(self, s):
+        self.s = s
+
+    def __str__(self):
+        return self.s
+
+
+SINGLE_VALUE_MUTATORS = {"add", "add_kw", "add_header", "set", "set_kw", "setitem", "setitem_idx", "setdefault", "add_nonstr", "set_nonstr", "setitem_nonstr", "add_kw_nonstr"}
 CTORS = ["headers_list", "headers_dict", "resp_dict", "resp_list", "resp_kwargs", "headers_from_environ_headers", "headers_copy_of_raw"]
 
 
